@@ -120,7 +120,7 @@ func (rotEngine) execute(sc *Scenario) *Outcome {
 	}
 
 	// 3. commands through the real klog.Run
-	root, err := os.MkdirTemp(scratchBase(), "verif-rot-")
+	root, err := mkScratch("rot")
 	if err != nil {
 		out.Error = err.Error()
 		return out
